@@ -45,7 +45,7 @@ KINDS = ["Sphere", "SphereLayered", "LayeredSphere", "Spheres", "Scatterers", "S
 
 def cases(tier, seed):
     out = []
-    n = 6 if tier == "quick" else 120
+    n = 8 if tier == "quick" else 120
     k = 0
     for rep in range(n):
         for kind in KINDS:
@@ -108,6 +108,9 @@ def _prior(rng, kind=None, named=None):
     if kind == "G":
         return Gaussian(lo, float(rng.uniform(0.05, 0.5)), name=nm)
     return BoundedGaussian(lo + 0.5, 0.2, lo, np.inf if rng.random() < 0.5 else lo + 2.0, name=nm)
+
+
+_REP = [0]      # repetition number of the case being built (set by run_case)
 
 
 def _make(what, rng, fl):
@@ -221,10 +224,11 @@ def _make(what, rng, fl):
         return ComplexPrior(re, im, name=[None, "cn"][int(rng.integers(0, 2))])
     if what == "TransformedPrior":
         p, q = _prior(rng, "U"), _prior(rng, "G")
-        return [p * 3 + 1, p + q, 2 - p, p / q, p ** 2, -p, 1 / p, (p + 1) * (q - 0.5)][int(rng.integers(0, 8))]
+        # (every spelling in turn, by repetition number: each has its own way into the text form)
+        return [p * 3 + 1, p + q, 2 - p, p / q, p ** 2, -p, 1 / p, (p + 1) * (q - 0.5)][_REP[0] % 8]
     if what == "UfuncPrior":
         p, q = _prior(rng, "U"), _prior(rng, "U")
-        return [np.sqrt(p), np.exp(p), np.maximum(p, q), np.add(p, 2.5), np.sin(np.sqrt(p)), TransformedPrior(np.hypot, [p, q], name="h")][int(rng.integers(0, 6))]
+        return [np.sqrt(p), np.exp(p), np.maximum(p, q), np.add(p, 2.5), np.sin(np.sqrt(p)), TransformedPrior(np.hypot, [p, q], name="h"), 2.0 / p, q / np.sqrt(p)][_REP[0] % 8]
     if what == "Mie":
         return Mie(compute_escat_radial=bool(rng.integers(0, 2)), full_radial_dependence=bool(rng.integers(0, 2)), eps1=N(lo=1e-3, hi=1e-1), eps2=1e-16)
     if what == "Multisphere":
@@ -490,6 +494,7 @@ def run_case(case):
     from holopy.inference.model import Model
     from vf.monitors import digest
     rng = rng_for(*case["seed"])
+    _REP[0] = int(case["seed"][-1]) // len(KINDS) if isinstance(case["seed"][-1], int) else 0
     obj = _make(case["what"], rng, case["argstyle"])
     flags, witness = {}, []
     td = tempfile.mkdtemp(prefix="vf_c15_")
